@@ -6,7 +6,7 @@ package randomness
 // /verif/properties.jsonl, independently of the code under test.
 
 import (
-	"math/big"
+	mbig "math/big"
 	"encoding/json"
 	"fmt"
 	"io/ioutil"
@@ -208,7 +208,7 @@ func refRuns(b []bool) (float64, float64) {
 		}
 	}
 	// pi(1-pi) from the exact counts (ones*zeros/n^2): no cancellation when pi is close to 0 or 1
-	pq := new(big.Rat).SetFrac(big.NewInt(int64(ones)*int64(n-ones)), big.NewInt(int64(n)*int64(n)))
+	pq := new(mbig.Rat).SetFrac(mbig.NewInt(int64(ones)*int64(n-ones)), mbig.NewInt(int64(n)*int64(n)))
 	w, _ := pq.Float64()
 	V := (float64(v) - 2*float64(n)*w) / (2 * math.Sqrt(float64(n)) * w)
 	return math.Erfc(math.Abs(V) / math.Sqrt2), math.Erfc(V/math.Sqrt2) / 2
